@@ -527,6 +527,9 @@ void BW_MidiSequencer::setLoopsCount(int loops)
     if(loops >= 1)
         loops -= 1; // Internally, loops count has the 0 base
     m_loopCount = loops;
+    // Takes effect at once, not only with the next load or rewind
+    m_loop.loopsCount = loops;
+    m_loop.loopsLeft = loops;
 }
 
 void BW_MidiSequencer::setLoopHooksOnly(bool enabled)
